@@ -23,11 +23,11 @@ def HandlesKept (w w' : World) : Prop :=
 
 /-- THE STRONG FRAME of an operation through the handle of `p` that moves the containers `M`:
     a container that is neither `p`, nor one of the containers `p` is nested in (`Anc w z p`), nor
-    moved, is UNTOUCHED — same entry in the container table (content, sizes, form, type) and same
-    closure; and no index table (`mutableElementIndex`) other than `p`'s changes any lookup. -/
+    moved, is UNTOUCHED — same entry in the container table (content, element sizes, header size,
+    form inlined / standalone, type); and no index table (`mutableElementIndex`) other than `p`'s
+    changes any lookup. -/
 def AncFrame (w w' : World) (p : SlabID) (M : SlabID → Prop) : Prop :=
-  (∀ z, ¬ Anc w z p → ¬ M z →
-    w'.cont? z = w.cont? z ∧ AList.find? w'.hinfo z = AList.find? w.hinfo z) ∧
+  (∀ z, ¬ Anc w z p → ¬ M z → w'.cont? z = w.cont? z) ∧
   (∀ q x, q ≠ p → AList.find? (w'.idxOf q) x = AList.find? (w.idxOf q) x)
 
 end World
